@@ -161,8 +161,8 @@ theorem location_wellformed (mw : S_ratelimitmw_Middleware) (ctx req : Option St
 /-- A `BadECSError` is answered with FORMERR (rcode 1) written to the client; any other error is
 returned untouched and nothing is written. -/
 theorem formerr_on_bad_ecs (mw : S_ratelimitmw_Middleware) (ctx rw req orig : Option String) (isBad : Bool)
-    (resp werr ann wd : Option String) :
-    let r := Middleware_processLocationErr mw ctx rw req orig isBad resp werr ann wd
+    (resp werr ann : Option String) :
+    let r := Middleware_processLocationErr mw ctx rw req orig isBad resp werr ann
     (isBad = true → callsOf "NewRespRCode" r.2 = [[toString req, toString (1 : Int)]] ∧
         callsOf "WriteMsg" r.2 = [[toString rw, toString ctx, toString req, toString resp]] ∧
         before "NewRespRCode" "WriteMsg" (names r.2) = true) ∧
